@@ -54,7 +54,52 @@ def nontrivial_c20(case):
     return any(len(l) > 0 for l in case["chain"])
 
 
+CONSTRUCTIONS = ["new", "new_again", "new_permuted", "new_then_add", "empty_then_add_permuted"]
+
+
+def cmp_c03(case, got):
+    bad = []
+    if got.get("panic"):
+        return [("panic while building or querying the filter", "panic")]
+    files = "; ".join("%s:[%s]" % ("/".join(f["loc"]) or ".", ", ".join(f["lines"])) for f in case["files"])
+    for name in CONSTRUCTIONS:
+        res = got.get(name)
+        if isinstance(res, dict) and "error" in res:
+            bad.append(("construction %s failed: %s (files %s)" % (name, res["error"], files), "construct:" + name))
+            continue
+        for e, g in zip(case["expect"], res):
+            if e["v"] == "any":
+                continue
+            want = e["v"] == "ignored"
+            path = "/".join(e["path"])
+            if g["ignored"] != want:
+                key = name
+                bad.append(("%s: %s %s is %s, expected %s; ignore files %s"
+                            % (name, "dir" if e["dir"] else "file", path,
+                               "ignored" if g["ignored"] else "kept", e["v"], files), key))
+            elif e["dir"] and g["check_dir_ignored"] != want:
+                key = "check_dir:" + name
+                bad.append(("%s: check_dir(%s) says %s, expected %s; ignore files %s"
+                            % (name, path, "ignored" if g["check_dir_ignored"] else "kept", e["v"], files), key))
+    return bad
+
+
+def nontrivial_c03(case):
+    vs = {e["v"] for e in case["expect"]}
+    return "ignored" in vs and "kept" in vs
+
+
 SPECS = {
+    "C03": dict(
+        module="IgnoreScope.tla", runner="ignore", cmp=cmp_c03, nontrivial=nontrivial_c03, seeded=True,
+        cfgs=dict(quick=["IgnoreScope_single.cfg", "IgnoreScope_sample.cfg"],
+                  thorough=["IgnoreScope_single.cfg", "IgnoreScope_pairs.cfg", "IgnoreScope_sample_big.cfg"]),
+        rule="cases (a set of ignore files with their lines) in which at least one probe is ignored and at least one is kept; each case is judged on 20 probes and 5 constructions of the filter",
+        exhaustive=False,
+        assumptions=["IgnoreScope.tla is the reference: nearest directory first, last matching line wins, path before its parents, then globals",
+                     "unspecified by the property and skipped: a directory versus an ignore file in that very directory; re-inclusion below an excluded parent; anchored global patterns seen from outside the origin",
+                     "the single-pattern glob semantics of the reference cover only the grammar of the pattern table in the spec"],
+    ),
     "C20": dict(
         module="Origins.tla", runner="origins", cmp=cmp_c20, nontrivial=nontrivial_c20,
         cfgs=dict(quick=["Origins_types.cfg", "Origins_table.cfg", "Origins_quick.cfg"],
@@ -83,7 +128,8 @@ def run(prop, tier, replay=None):
     else:
         for cfg in spec["cfgs"][tier]:
             r = vlib.tlc(spec["module"], cfg, os.path.join(wd, "tlc_" + cfg.replace(".cfg", "")),
-                         workers=spec.get("workers", 4), timeout=3000)
+                         workers=spec.get("workers", 4), timeout=3000,
+                         extra=["-seed", str(vlib.seed())] if spec.get("seeded") else None)
             if r["error"]:
                 sys.stderr.write(r["out"][-4000:])
                 raise vlib.ToolError("TLC failed on %s/%s" % (spec["module"], cfg))
